@@ -71,8 +71,7 @@ func (cd *codecDeriver) ty(text string, hidden bool) codecTy {
 		if hidden {
 			return leafTy("custom")
 		}
-		cd.opaque = true // accepts objects only
-		return leafTy("any")
+		return leafTy("map") // a Go map: accepts objects (and null) only; an EMPTY map is empty for omitempty
 	}
 	if strings.Contains(text, "Option[") {
 		cd.unsupp = "generic optional type"
@@ -276,7 +275,7 @@ func untag(v any) any {
 
 func leafSame(kind string, mv, iv any) bool {
 	switch kind {
-	case "any", "custom":
+	case "any", "custom", "map":
 		return true // opaque
 	case "float":
 		a, ok1 := mv.(json.Number)
@@ -300,7 +299,7 @@ func (cd *codecDeriver) cmpVal(ty codecTy, mv any, dump dumpNode, path string) s
 	switch ty["k"] {
 	case "leaf":
 		kind := ty["leaf"].(string)
-		if kind == "any" || kind == "custom" {
+		if kind == "any" || kind == "custom" || kind == "map" {
 			return ""
 		}
 		if dump["t"] != "val" {
